@@ -1,6 +1,62 @@
+import DdsModel.Split
 import DdsModel.Drv.Util
+namespace Dds.Drv.C14
+open Dds
+
+def parseDith : String → Option Dithering
+  | "none" => some .none | "color" => some .color | "alpha" => some .alpha
+  | "all" => some .colorAndAlpha | _ => none
+
+def dithName : Dithering → String
+  | .none => "none" | .color => "color" | .alpha => "alpha" | .colorAndAlpha => "all"
+
+def parseQuality : String → Option Quality
+  | "fast" => some .fast | "normal" => some .normal | "high" => some .high
+  | "unr" => some .unreasonable | _ => none
+
+def fmtFrag : Option (Nat × Nat) → String
+  | some (o, k) => s!"{o}:{k}"
+  | none => "missing"
+
+def fmtFrags (l : List (Option (Nat × Nat))) : String :=
+  let n := l.length
+  if n ≤ 48 then ",".intercalate (l.map fmtFrag)
+  else ",".intercalate ((l.take 3).map fmtFrag ++ [".."] ++ (l.drop (n - 2)).map fmtFrag)
+
+/-- `ImageView::new` normalises every empty size to 0x0 -/
+def normSize (w h : Nat) : Nat × Nat := if w = 0 ∨ h = 0 then (0, 0) else (w, h)
+
+def geoString (sup : Option Support) (w h : Nat) (d : Dithering) (q : Quality) : String :=
+  let (w, h) := normSize w h
+  let sv := SplitView.new w h sup d q
+  s!"len={sv.len} frags={fmtFrags sv.fragments}"
+
+def runC14 (line : String) : String :=
+  match toks line with
+  | ["sup", name] =>
+    match supportOf name with
+    | none => "bad-case"
+    | some none => "sup none"
+    | some (some s) =>
+      let sh := match s.splitHeight with | some x => toString x | none => "-"
+      s!"sup split={sh} local={if s.localDithering then 1 else 0} dith={dithName s.dithering}"
+  | ["geo", name, w, h, d, q] =>
+    match supportOf name, nat? w, nat? h, parseDith d, parseQuality q with
+    | some sup, some w, some h, some d, some q => s!"geo {geoString sup w h d q}"
+    | _, _, _, _, _ => "bad-case"
+  | ["enc", name, w, h, _color, d, q, _m, _th, _o, _seed] =>
+    match supportOf name, nat? w, nat? h, parseDith d, parseQuality q with
+    | some none, some w, some h, some d, some q =>
+      s!"enc err:UnsupportedFormat {geoString none w h d q}"
+    | some sup, some w, some h, some d, some q =>
+      -- bytes are not computed by the model: the three outputs are predicted equal
+      -- (Theorems.C14.order_independent / fragmentwise_eq_whole)
+      s!"enc ok {geoString sup w h d q} par=eq frag=eq"
+    | _, _, _, _, _ => "bad-case"
+  | _ => "bad-case"
+
+end Dds.Drv.C14
+
 namespace Dds.Drv
-
-def runC14 (_line : String) : String := "not-modelled"
-
+def runC14 : String → String := C14.runC14
 end Dds.Drv
